@@ -24,7 +24,7 @@ def _work(arg):
     except Exception as e:
         return ('engine-error', '%s: %s\n%s' % (type(e).__name__, e, traceback.format_exc()[-3000:]), prefix)
 
-def explore(ll, entry='harness_main', workers=16, max_paths=200000, time_limit=600, chunk=24, engine_opts=None, seed=0):
+def explore(ll, entry='harness_main', workers=16, max_paths=200000, time_limit=600, chunk=24, engine_opts=None, seed=0, stop_on_inconclusive=False):
     t0 = time.time(); deadline = t0 + time_limit
     engine_opts = engine_opts or {}
     ctx = mp.get_context('fork')
@@ -60,13 +60,14 @@ def explore(ll, entry='harness_main', workers=16, max_paths=200000, time_limit=6
                     for l in pr['reached']: out['reached'][l] += 1
                     for a, k in pr['asserts'].items(): out['asserts'][a] += k
                     out['violations'].extend(pr['violations'])
-                    if pr['end'] == 'inconclusive': out['inconclusive'].append(pr['detail'])
-                    if 'vector' in pr:
+                    if pr['end'] == 'inconclusive': out['inconclusive'].append(pr['detail']); out.setdefault('inconclusive_vectors', []).append(pr.get('vector', []))
+                    if 'vector' in pr and pr['end'] != 'inconclusive':
                         if len(out['samples']) < 6 or (pr['violations'] and len(out['samples']) < 12):
                             out['samples'].append(dict(inputs=pr['vector'], observed=pr.get('obs', [])[:40], notes=pr.get('notes', [])[:12], end=pr['end'], stdout=pr.get('stdout', '')[:200]))
                         if len(out['vectors']) < 400 and (out['paths'] % 7 == 1 or len(out['vectors']) < 40):
                             out['vectors'].append(dict(vector=pr['vector'], obs=pr.get('obs', []), asserts_failed=[v['msg'] for v in pr['violations']], reached=pr['reached']))
             if out['engine_errors'] or time.time() > deadline or out['paths'] >= max_paths: break
+            if stop_on_inconclusive and out['inconclusive']: break
             submit()
         out['pending'] = len(queue) + len(inflight)
     finally:
